@@ -13,7 +13,8 @@ from harness.common import traffic_syms, gt_sets, sym_slots
 PROPERTY = "C19"
 LEVEL = "model_checking"
 UNCONFIRMED_OK = True   # a difference seen only under an explored set order is a candidate; see DESIGN §5 C19
-BOUNDS = {"hours_per_series": "N=2", "skeletons": "T2, T3, T5, T9, TX, two-device/two-job variants, and T5n (servers, storages and networks named alike)",
+BOUNDS = {"hours_per_series": "N=2 (4 on TH)", "skeletons": "T2, T3, T5, T9, TX, two-device/two-job variants, T5n (servers, storages and networks named alike) "
+          "and TH (two time zones, a time change in one of them: same first hour and length, different hours)",
           "configurations": "all permutations of usage_patterns / devices / same-step jobs (lists <= 3); reversed creation "
           "order of the objects of each class; 6 identifier assignments (uuid counter offsets); set iteration order as an "
           "explored choice for the first 3 (quick) / 5 (thorough) sets with >= 2 elements met while computing; 4 real "
@@ -99,6 +100,13 @@ def base_spec(skeleton):
         s["devices"]["dev2"] = {}
         s["patterns"]["up2"]["devices"] = ["dev2"]
         return s
+    if skeleton == "T2cn":
+        # two distinct countries carrying the same name and short name on one network (like the devices and the patterns)
+        return M.T2c(2, same_names=True)
+    if skeleton == "TH":
+        # two zones, one of which has a time change in the period: series with the same first hour and length whose
+        # hours differ (4 hours per series here, the smallest period that has the missing hour inside)
+        return M.TH(4)
     return M.SKELETONS[skeleton](2)
 
 
@@ -146,7 +154,7 @@ from harness import model as M, values as V
 from harness.c19 import base_spec
 class C: symbolic = False
 out = {}
-for sk in ("T3", "T5", "T2d", "T9", "T2c", "T3b", "TX", "T5n"):
+for sk in ("T3", "T5", "T2d", "T9", "T2c", "T3b", "TX", "T5n", "TH", "T2cn"):
     objs = M.build(base_spec(sk), M.Env(C(), {}))
     for name, o in objs.items():
         if hasattr(o, "calculated_attributes"):
@@ -192,7 +200,7 @@ HARNESSES = {"config": h_config, "hashseed": h_hashseed}
 
 def plan(tier, seed):
     p = []
-    for sk in ("T3", "T9", "T2d", "T2c", "T5n"):
+    for sk in ("T3", "T9", "T2d", "T2c", "T5n", "TH", "T2cn"):
         for perm in itertools.permutations(range(2)):
             p.append(("config", dict(skeleton=sk, kind="patterns", arg=list(perm))))
     for perm in itertools.permutations(range(3)):
@@ -206,6 +214,12 @@ def plan(tier, seed):
         p.append(("config", dict(skeleton=sk, kind="creation", arg="reversed")))
         p.append(("config", dict(skeleton=sk, kind="creation", arg=seed + 1)))
         for off in (1000, 2000, 31337, 77777, 123456):
+            p.append(("config", dict(skeleton=sk, kind="none", arg=0, uuid_offset=off)))
+        p.append(("config", dict(skeleton=sk, kind="none", arg=0, set_budget=4 if tier == "quick" else 6),
+                  dict(max_paths=300 if tier == "quick" else 3000, max_seconds=200 if tier == "quick" else 1500)))
+    for sk in ("TH", "T2cn"):
+        p.append(("config", dict(skeleton=sk, kind="creation", arg="reversed")))
+        for off in (1000, 31337):
             p.append(("config", dict(skeleton=sk, kind="none", arg=0, uuid_offset=off)))
         p.append(("config", dict(skeleton=sk, kind="none", arg=0, set_budget=4 if tier == "quick" else 6),
                   dict(max_paths=300 if tier == "quick" else 3000, max_seconds=200 if tier == "quick" else 1500)))
